@@ -1187,6 +1187,22 @@ pub fn scenarios(thorough: bool) -> Vec<BScenario> {
                 BCaller { erased: false, ctx: Ctx::Async, ops: vec![end.clone(), BOp::Wait(150)] },
             ],
         });
+        if thorough {
+            // the same with erased handles, a caller on the blocking pool and a plain thread next to the runtime threads
+            v.push(BScenario {
+                name: format!("b24t-bounded-calls-to-an-ended-actor-erased-{end:?}"),
+                cap: 2,
+                gates: 0,
+                pool: None,
+                callers: vec![
+                    BCaller { erased: true, ctx: Ctx::InAsync, ops: vec![a(1, None, Some(300)), t(2, None, Some(300))] },
+                    BCaller { erased: true, ctx: Ctx::InCurrentThread, ops: vec![t(3, None, Some(300))] },
+                    BCaller { erased: true, ctx: Ctx::SpawnBlocking, ops: vec![t(4, None, Some(300))] },
+                    BCaller { erased: false, ctx: Ctx::Thread, ops: vec![a(5, None, Some(300))] },
+                    BCaller { erased: false, ctx: Ctx::Async, ops: vec![end.clone(), BOp::Wait(150)] },
+                ],
+            });
+        }
     }
     // S6: unusual timeout values
     v.push(BScenario {
